@@ -25,6 +25,14 @@ def callables(spec, tier):
     h = meth.compile()
     cls2 = callmc.holder_class({'__call__': h})
     out.append(('callable-instance', cls2(), h.CALLS))
+    # a callable object that carries ordinary attributes named like a partial's (a job / command object storing its
+    # own `args` and `keywords`): it is not a partial, its __call__ signature is what binds
+    h2 = meth.compile()
+    cls3 = callmc.holder_class({'__call__': h2})
+    job = cls3()
+    job.args = (10, 20)
+    job.keywords = {'a': 5, 'zz': 6}
+    out.append(('callable-instance(args attr)', job, h2.CALLS))
     # partials: 0-2 positionals x 0-1 keywords
     kwn = (tuple(names) if names else ('a', 'b')) + ('k', 'z')
     for npos in (0, 1, 2):
